@@ -35,6 +35,12 @@ def check_visitor_core(model: Model, col, rule: str):
              [k for k, v in fi.assigns.items() if is_mutable_literal(v)]
     col.check(not shared, rule, f"{VISITOR}::Visitor has no shared dispatch state", "no class- or module-level container",
               f"{shared} is shared by all visitor objects of the process: a handler (bound method) or verdict remembered there belongs to the visitor of an earlier compilation", VISITOR, vis.node)
+    # (a2) the base classes define the generic entry points only: a handler for a node class there is found through the MRO of
+    # every node below that class before any visitor's own v_Default is tried
+    base_handlers = [f"{c.name}.{k}" for c in (vis, dv) for k in c.methods if k.startswith("v_") and k not in ("v_Generic", "v_Visit", "v_Default")]
+    col.check(not base_handlers, rule, f"{VISITOR}::Visitor/DefaultVisitor define no class handlers", "only v_Generic / v_Visit / v_Default",
+              f"{base_handlers} is inherited by every visitor and matches every node derived from that class: visitors that rely on their own v_Default "
+              "(to refuse what they do not support, or to do per-node work) never reach it", VISITOR, dv.node)
     vg = vis.own_method("v_Generic")
     selfn = vg.args.args[0].arg
     # (b) the handler is looked up on self, by the name built from the class being tried, and called with (obj, ctx)
@@ -131,8 +137,21 @@ def check_pass_process(model: Model, col, rule: str):
         raise AnchorMissing(f"{PASS}::MakePassFromVisitor.VisitorPass.Process")
     visits = [c for c in ast.walk(proc) if isinstance(c, ast.Call) and last_attr(c) == "Visit"]
     vals = [c for c in ast.walk(proc) if isinstance(c, ast.Call) and isinstance(c.func, ast.Name) and c.func.id == "validator"]
-    recv = unparse(visits[0].func.value) if visits else None
-    same = bool(visits) and bool(vals) and all(len(c.args) == 1 and unparse(c.args[0]) == recv for c in vals) and recv is not None and recv.startswith(proc.args.args[0].arg + ".")
+    def _origin(e):
+        # a local bound once to a plain field read stands for that field
+        for _ in range(4):
+            if not isinstance(e, ast.Name):
+                break
+            binds = [a for a in ast.walk(proc) if isinstance(a, (ast.Assign, ast.AugAssign, ast.AnnAssign, ast.For, ast.With, ast.NamedExpr))
+                     for t in ast.walk(a) if isinstance(t, ast.Name) and isinstance(t.ctx, ast.Store) and t.id == e.id]
+            if len(binds) != 1 or not isinstance(binds[0], ast.Assign) or len(binds[0].targets) != 1 or not isinstance(binds[0].targets[0], ast.Name) \
+                    or not isinstance(binds[0].value, (ast.Name, ast.Attribute)):
+                break
+            e = binds[0].value
+        return unparse(e)
+
+    recv = _origin(visits[0].func.value) if visits else None
+    same = bool(visits) and bool(vals) and all(len(c.args) == 1 and _origin(c.args[0]) == recv for c in vals) and recv is not None and recv.startswith(proc.args.args[0].arg + ".")
     copies = [unparse(c)[:40] for c in ast.walk(f) if isinstance(c, ast.Call) and (dotted(c.func) or "").startswith("copy.")]
     col.check(same and not copies, rule, f"{PASS}::MakePassFromVisitor.Process one visitor object", f"the object that visits ({recv}) is the object the validator is asked about",
               f"the visit runs on `{recv}` but the verdict is read from {[unparse(c.args[0]) for c in vals if c.args]} (copies: {copies}): flags set during the visit are not seen by the validator", PASS, proc)
@@ -214,6 +233,37 @@ def check_ast_traversal(model: Model, col, rule: str):
         col.check(not lost, rule, f"{ci.file}::{ci.name}._Traverse stores rewritten children", "self.<field> = function(self.<field>) for every traversed field",
                   f"the result of function({lost[0] if lost else ''}) is dropped: a pass that replaces a child of a {ci.name} (compound-assignment rewrite, implicit casts) has no effect there", ci.file, m)
     col.floor(rule, "_Traverse methods", n, 12)
+    # a field that setters write by index (`self.children[0] = left`) or that _Traverse re-binds is the stored list itself:
+    # a property of that name that hands out / stores a copy makes those writes land in a temporary
+    nprop = 0
+    for ci in model.classes.values():
+        if ci.file not in (ASTF, "nsl/LinearIR.py"):
+            continue
+        written = set()
+        for m in ci.methods.values():
+            if not m.args.args:
+                continue
+            s = m.args.args[0].arg
+            for x in ast.walk(m):
+                tg = x.targets if isinstance(x, ast.Assign) else [x.target] if isinstance(x, ast.AugAssign) else []
+                for t in tg:
+                    if isinstance(t, ast.Subscript) and isinstance(t.value, ast.Attribute) and isinstance(t.value.value, ast.Name) and t.value.value.id == s:
+                        written.add(t.value.attr)
+                if isinstance(x, ast.Call) and isinstance(x.func, ast.Attribute) and x.func.attr in ("append", "extend", "insert", "add", "update", "remove", "pop") \
+                        and isinstance(x.func.value, ast.Attribute) and isinstance(x.func.value.value, ast.Name) and x.func.value.value.id == s:
+                    written.add(x.func.value.attr)
+        for f in sorted(written):
+            for c in ci.mro:
+                g = next((b for b in c.node.body if isinstance(b, ast.FunctionDef) and b.name == f and any(unparse(d) == "property" for d in b.decorator_list)), None)
+                if g is None:
+                    continue
+                nprop += 1
+                rets = [r.value for r in ast.walk(g) if isinstance(r, ast.Return) and r.value is not None]
+                raw = bool(rets) and all(isinstance(v, ast.Attribute) and isinstance(v.value, ast.Name) and v.value.id == g.args.args[0].arg for v in rets)
+                col.check(raw, rule, f"{ci.file}::{ci.name}.{f} is the stored container", "the property returns the stored object itself",
+                          f"`{f}` of {c.name} is a property returning `{unparse(rets[0]) if rets else None}`: `self.{f}[i] = x` / `self.{f}.append(x)` in {ci.name} change a temporary, so "
+                          "replacing an operand (implicit cast, rewrite) or adding an element has no effect", ci.file, g)
+    col.note("in-place written fields that are properties", nprop)
 
 
 def check_op_enum(model: Model, col, rule: str):
@@ -232,3 +282,159 @@ def check_op_enum(model: Model, col, rule: str):
         targets = [unparse(v) for v in tbl.values]
         dupt = sorted({t for t in targets if targets.count(t) > 1})
         col.check(not dupt, rule, f"{OP}::_op_str_map is injective", "every spelling has its own operation", f"several spellings map to {dupt}: the operators are indistinguishable after parsing", OP, tbl)
+    sel, want, ic = comparison_members(model)
+    col.check(sorted(sel) == want and len(want) == 6, rule, f"{OP}::IsComparison over the Operation enum", f"selects exactly {want}",
+              f"IsComparison selects {sorted(sel)}; the comparison operations are {want}: "
+              + (f"{sorted(set(want) - set(sel))} are typed as arithmetic (result = operand type instead of int)" if set(want) - set(sel) else f"{sorted(set(sel) - set(want))} are typed as comparisons"), OP, ic)
+
+
+def comparison_members(model: Model):
+    """IsComparison folded (by miniev, nothing of the repository runs) over every member of the Operation enum."""
+    from .miniev import CannotEval, run_pure
+
+    ops = model.enum_members(OP, "Operation")
+    ic = model.func(OP, "IsComparison")
+    pname = ic.args.args[0].arg
+    consts = {f"Operation.{n_}.value": v_ for n_, v_ in ops.items()}
+    consts.update({f"Operation.{n_}": f"<{n_}>" for n_ in ops})
+    sel = []
+    for name, val in ops.items():
+        try:
+            if run_pure(ic, (), extra={pname: f"<{name}>", f"{pname}.value": val, f"{pname}.name": name, **consts}):
+                sel.append(name)
+        except CannotEval as e:
+            raise AnalysisError(f"{OP}::IsComparison cannot be folded: {e}")
+    return sel, sorted(n for n in ops if n.startswith("CMP_")), ic
+
+
+INFRA_FILES = (VISITOR, PASS, ERRORS, ASTF, OP, "nsl/Compiler.py", "nsl/Utility.py")
+
+
+def swallowing_handlers(tree):
+    """except-clauses that can complete without raising: whatever went wrong below them is turned into "nothing happened"."""
+    out = []
+    for t in ast.walk(tree):
+        if not isinstance(t, ast.Try):
+            continue
+        for h in t.handlers:
+            if any(status != "raise" for evs, status in paths(h.body, fold=_const_fold)):
+                out.append(h)
+    return out
+
+
+def check_no_swallow(model: Model, col, rule: str):
+    """The shared machinery never turns a failure into silence: no except-clause in it completes without re-raising, and
+    ErrorMessage.Raise raises on every path (every `X.Raise(..)` in the passes is written as the end of its path)."""
+    probe = ast.parse("def f(v, c):\n    try:\n        return v.g(c)\n    except RuntimeError:\n        return None\n")
+    if len(swallowing_handlers(probe)) != 1:
+        raise AnalysisError("infra: the swallowing-handler detector does not fire on its positive example")
+    n = 0
+    for rel in INFRA_FILES:
+        fi = model.files.get(rel)
+        if fi is None:
+            raise AnchorMissing(rel)
+        n += 1
+        hs = swallowing_handlers(fi.tree)
+        col.check(not hs, rule, f"{rel}:: no except-clause completes without raising", "no swallowing handler",
+                  f"`except {unparse(hs[0].type) if hs and hs[0].type is not None else ''}` at line {hs[0].lineno if hs else 0} can complete without raising: a failure inside a handler, traversal or pass "
+                  "(an unsupported construct, an internal error) is dropped and the partial result is handed on as if it were complete", rel, hs[0] if hs else fi.tree)
+    em = model.cls(ERRORS, "ErrorMessage")
+    rz = em.own_method("Raise")
+    if rz is None:
+        raise AnchorMissing(f"{ERRORS}::ErrorMessage.Raise")
+    exits = [status for evs, status in paths(rz.body, fold=_const_fold)]
+    col.check(bool(exits) and all(s == "raise" for s in exits), rule, f"{ERRORS}::ErrorMessage.Raise always raises", "every path ends in `raise CompileException(..)`",
+              "ErrorMessage.Raise can return: the code after every `.Raise(..)` in the passes (written as unreachable) runs, e.g. FindFunction falls through and binds the first of two equally good overloads", ERRORS, rz)
+    ce = model.cls(ERRORS, "CompileException")
+    col.check(any(b.name in ("Exception", "BaseException") for b in ce.mro) or any("Exception" in unparse(b) for b in ce.node.bases), rule, f"{ERRORS}::CompileException is an exception", "derives from Exception", None, ERRORS, ce.node)
+
+
+# the passes of the pinned tree, confirmed by reading nsl/Compiler.py: each one that still exists as a file must be scheduled
+SCHEDULED_PASSES = {
+    "AddImplicitCasts": "inserts the conversions the type rules imply", "ComputeTypes": "types every expression; registers functions",
+    "DebugAst": "dump", "DebugTypes": "dump", "GenerateWasm": "wasm back end", "LowerToIR": "AST -> IR",
+    "OptimizeConstantCasts": "optimisation", "OptimizeLoadAfterStore": "optimisation", "PrettyPrint": "dump", "PrintLinearIR": "dump",
+    "RewriteAssignEqualOperations": "a op= b -> a = a op b", "RewriteFunctionArgAccess": "argument names -> indices (VM and wasm rely on it)",
+    "UpdateLocations": "source ranges of composites", "ValidateArrayAccessType": "validator", "ValidateArrayOutOfBoundsAccess": "validator",
+    "ValidateExportedFunctions": "validator", "ValidateFlowStatements": "validator", "ValidateSwizzle": "validator", "ValidateVariableNames": "validator",
+}
+ONE_SHOT = ("enumerate", "iter", "reversed", "zip", "map", "filter")
+
+
+def one_shot_fields(cls_node: ast.ClassDef):
+    """[(field, maker, node)]: `self.f = map(..)/filter(..)/(x for ..)/..` - an iterator that is empty after its first use."""
+    out = []
+    for m in cls_node.body:
+        if not isinstance(m, ast.FunctionDef) or not m.args.args:
+            continue
+        s = m.args.args[0].arg
+        for n in ast.walk(m):
+            if isinstance(n, ast.Assign) and isinstance(n.targets[0], ast.Attribute) and isinstance(n.targets[0].value, ast.Name) and n.targets[0].value.id == s:
+                for v in ast.walk(n.value) if isinstance(n.value, ast.IfExp) else [n.value]:
+                    if isinstance(v, ast.GeneratorExp) or (isinstance(v, ast.Call) and isinstance(v.func, ast.Name) and v.func.id in ONE_SHOT):
+                        out.append((n.targets[0].attr, "generator" if isinstance(v, ast.GeneratorExp) else v.func.id, n))
+    return out
+
+
+def check_pipeline(model: Model, col, rule: str):
+    """The driver runs every pass, over the whole pass lists, on every compilation, and leaves itself unchanged."""
+    from .pipeline import Pipeline, COMPILER
+    from .sem import local_env, resolve
+
+    probe = ast.parse("class K:\n    def __init__(self, a):\n        self.a = map(int, a) if a else None\n").body[0]
+    if len(one_shot_fields(probe)) != 1:
+        raise AnalysisError("infra: the one-shot-iterator detector does not fire on its positive example")
+    pipe = Pipeline(model)
+    comp = pipe.compile
+    selfn = comp.args.args[0].arg
+    shots = [(a, mk) for a, mk, _ in pipe.oneshot] + [(f, mk) for f, mk, _ in one_shot_fields(pipe.cls.node)]
+    col.check(not shots, rule, f"{COMPILER}::Compiler keeps its pass lists as lists", "no one-shot iterator is stored on the compiler",
+              f"{shots} is an iterator: the first Compile on a Compiler consumes it, every later Compile on the same object runs no pass of that list "
+              "(nothing is typed, validated or rewritten the second time)", COMPILER, pipe.cls.node)
+    # every pass of the pinned tree is scheduled: in a pass list or created in Compile
+    made = set(pipe.ast_passes) | set(pipe.ir_passes) | {dotted(c.func.value).split(".")[-1] for c in ast.walk(comp) if isinstance(c, ast.Call) and last_attr(c) == "GetPass"
+                                                            and isinstance(c.func, ast.Attribute) and dotted(c.func.value)}
+    init = pipe.cls.own_method("__init__")
+    held = {dotted(c.func.value).split(".")[-1] for c in ast.walk(init) if isinstance(c, ast.Call) and last_attr(c) == "GetPass" and isinstance(c.func, ast.Attribute) and dotted(c.func.value)}
+    n = 0
+    for name, why in sorted(SCHEDULED_PASSES.items()):
+        if pipe.pass_file(name) not in model.files:
+            continue
+        n += 1
+        col.check(name in made, rule, f"{COMPILER}::Compiler schedules {name}", f"{name} ({why}) is in a pass list or created in Compile",
+                  (f"{name} ({why}) is created once in Compiler.__init__, outside the pass lists: if Compile uses that object, its visitor (and what it accumulated: the module being "
+                   "built, tables, flags) is carried from one compilation to the next" if name in held else
+                   f"{name} ({why}) is no longer scheduled by the compiler: what it establishes or rejects is missing from every compilation"), COMPILER, init)
+    col.floor(rule, "passes the compiler must schedule", n, 15)
+    # Compile walks the whole lists: no slice / conditional selection of a part of a pass list, no rebinding of the lists
+    env = local_env(comp, allow_impure=True)
+    sliced = []
+    for lp in [x for x in ast.walk(comp) if isinstance(x, (ast.For, ast.comprehension))]:
+        it = resolve(lp.iter, env)
+        if any(isinstance(a, ast.Attribute) and a.attr in ("astPasses", "irPasses") for a in ast.walk(it)):
+            if any(isinstance(s_, ast.Subscript) and isinstance(s_.slice, ast.Slice) for s_ in ast.walk(it)):
+                sliced.append(" ".join(unparse(it).split())[:80])
+    col.check(not sliced, rule, f"{COMPILER}::Compile runs the whole pass lists", "no loop over a slice of astPasses / irPasses",
+              f"Compile iterates `{sliced[0] if sliced else ''}`: passes outside the slice are skipped on that configuration", COMPILER, comp)
+    writes = []
+    for fn in (comp, pipe.runpass):
+        if fn is None:
+            continue
+        s = fn.args.args[0].arg
+        for x in ast.walk(fn):
+            tg = x.targets if isinstance(x, ast.Assign) else [x.target] if isinstance(x, (ast.AugAssign, ast.AnnAssign)) else []
+            for t in tg:
+                b = t
+                while isinstance(b, ast.Subscript):
+                    b = b.value
+                if isinstance(b, ast.Attribute) and isinstance(b.value, ast.Name) and b.value.id in (s, pipe.cls.name):
+                    # only state a compilation also reads decides anything about the next one
+                    read = any(isinstance(r, ast.Attribute) and r.attr == b.attr and isinstance(r.ctx, ast.Load) and isinstance(r.value, ast.Name) and r.value.id in (s, pipe.cls.name)
+                               for f2 in (comp, pipe.runpass) if f2 is not None for r in ast.walk(f2))
+                    if read:
+                        writes.append(unparse(t))
+            if isinstance(x, ast.Call) and isinstance(x.func, ast.Attribute) and x.func.attr in ("append", "extend", "remove", "pop", "clear", "sort", "reverse", "insert", "update", "setdefault") \
+                    and isinstance(x.func.value, ast.Attribute) and isinstance(x.func.value.value, ast.Name) and x.func.value.value.id in (s, pipe.cls.name):
+                writes.append(unparse(x.func))
+    col.check(not writes, rule, f"{COMPILER}::Compile leaves the compiler unchanged", "Compile / __RunPass write no attribute of the compiler object or class",
+              f"Compile writes {sorted(set(writes))}: what one compilation (its options, its source) did decides how the next one on the same Compiler - or in the same process - is compiled", COMPILER, comp)
